@@ -55,7 +55,7 @@ func init() {
 				return "ok"
 			case len(t) >= 1 && t[0] == "conc":
 				return runAbmfConc(t)
-			case (len(t) == 10 || len(t) == 11) && t[0] == "ccr":
+			case len(t) >= 10 && len(t) <= 12 && t[0] == "ccr":
 				sess, _ := unhex(t[1])
 				sub, _ := unhex(t[6])
 				ccr := &cd.AccountDebitRequest{
@@ -78,6 +78,14 @@ func init() {
 						UsedServiceUnit:      &cd.UsedServiceUnit{CCTotalOctets: datatype.Unsigned64(u(t[9]))},
 					},
 				}
+				for _, x := range t[10:] {
+					// v<id>: the MSCC carries a Service-Identifier besides its Rating-Group (the account is the Rating-Group's)
+					if strings.HasPrefix(x, "v") {
+						ccr.MultipleServicesCreditControl.ServiceIdentifier = datatype.Unsigned32(u(strings.TrimPrefix(x, "v")))
+					} else if !strings.HasPrefix(x, "e") {
+						return "bad-op"
+					}
+				}
 				msg := diam.NewRequest(charging_code.ABMF_CreditControl, charging_code.Re_interface, dict.Default)
 				if err := msg.Marshal(ccr); err != nil {
 					return "marshal-error"
@@ -92,10 +100,12 @@ func init() {
 					}
 					msg = m2
 				}
-				if len(t) == 11 {
-					// the request carries a chosen End-to-End Identifier (RFC 6733: unique per sender for 4 minutes at least
-					// - another request of the history may carry the same one: it is another request all the same)
-					msg.Header.EndToEndID = uint32(u(strings.TrimPrefix(t[10], "e")))
+				for _, x := range t[10:] {
+					if strings.HasPrefix(x, "e") {
+						// the request carries a chosen End-to-End Identifier (RFC 6733: unique per sender for 4 minutes at least
+						// - another request of the history may carry the same one: it is another request all the same)
+						msg.Header.EndToEndID = uint32(u(strings.TrimPrefix(x, "e")))
+					}
 				}
 				a, st := abmfPeer.roundTrip(msg)
 				rep := ""
@@ -146,7 +156,7 @@ func genAbmf(o genOpts, w *bufio.Writer) {
 		var accs []acc
 		na := 1 + r.intn(3)
 		for i := 0; i < na; i++ {
-			a := acc{ues[r.intn(len(ues))], r.pick(1, 2, 7, 4294967295)}
+			a := acc{ues[r.intn(len(ues))], r.pick(1, 2, 7, 0, 4294967295)}
 			accs = append(accs, a)
 			var q string
 			switch r.intn(10) {
@@ -161,6 +171,7 @@ func genAbmf(o genOpts, w *bufio.Writer) {
 			}
 			fmt.Fprintf(w, "abmf set %s %d %s\n", hexOf([]byte(a.ue)), a.rg, hexOf([]byte(q)))
 		}
+		histBase := 1000 + r.intn(1000)
 		for i := 0; i < per && done < o.n; i++ {
 			a := accs[r.intn(len(accs))]
 			ue, rg := a.ue, a.rg
@@ -194,8 +205,19 @@ func genAbmf(o genOpts, w *bufio.Writer) {
 			if r.chance(25) {
 				e2e = fmt.Sprintf(" e%d", r.pick(1, 2, 3, 4294967295))
 			}
-			fmt.Fprintf(w, "abmf ccr %s %d %d %s %d %s %d %d %d%s\n", hexOf([]byte(fmt.Sprintf("s%d", r.intn(1000)))),
-				reqType, r.intn(1<<20), actTok, subType, hexOf([]byte(ue[5:])), rg, amt(), amt(), e2e)
+			svc := ""
+			if r.chance(20) {
+				// a Service-Identifier in the MSCC: another account's rating group, or just a number
+				svc = fmt.Sprintf(" v%d", r.pick(accs[r.intn(len(accs))].rg, 1, 2, 7, 77))
+			}
+			// (the Session-Ids of a history come from a small pool: what a session was told before - final units, say - must
+			// not change what the account gives later)
+			sessTok := fmt.Sprintf("s%d", histBase+r.intn(2))
+			if r.chance(20) {
+				sessTok = fmt.Sprintf("s%d", r.intn(1000))
+			}
+			fmt.Fprintf(w, "abmf ccr %s %d %d %s %d %s %d %d %d%s%s\n", hexOf([]byte(sessTok)),
+				reqType, r.intn(1<<20), actTok, subType, hexOf([]byte(ue[5:])), rg, amt(), amt(), e2e, svc)
 			done++
 		}
 	}
